@@ -684,6 +684,20 @@ __strfd_card(
 		break;
 
 	case DT_SPFL_N_DCNT_YEAR:
+		if (UNLIKELY(s.bizda && that.typ != DT_BIZDA &&
+			     that.typ != DT_YMD)) {
+			/* %jb of a date in another calendar, count the
+			 * business days of the civil date it denotes */
+			const dt_ymd_t ymd = dt_dconv(DT_YMD, that).ymd;
+			const int yd = __get_nbdays(
+				__ymd_get_yday(ymd), __ymd_get_wday(ymd));
+
+			res = ui999topstr(
+				buf, bsz, yd >= 0 ? yd : 0,
+				3 - ((s.pad == DT_SPPAD_OMIT) << 1U),
+				padchar(s));
+			break;
+		}
 		switch (that.typ) {
 		case DT_YMD:
 		case DT_BIZDA: {
